@@ -41,11 +41,20 @@ func typ(b *strings.Builder, t *yang.YangType, ind string, depth int) {
 	}
 }
 
+// extArgs lists the extension statements of an entry (keyword and argument, in order).
+func extArgs(e *yang.Entry) string {
+	var xs []string
+	for _, x := range e.Exts {
+		xs = append(xs, fmt.Sprintf("%s %q", x.Keyword, x.Argument))
+	}
+	return "[" + strings.Join(xs, ", ") + "]"
+}
+
 func entry(b *strings.Builder, e *yang.Entry, ind string, pos bool) {
 	im, imerr := e.InstantiatingModule()
 	ime := ""
 	if imerr != nil {
-		ime = "ERR"
+		ime = "ERR(" + imerr.Error() + ")"
 	}
 	la := ""
 	if e.ListAttr != nil {
@@ -59,7 +68,7 @@ func entry(b *strings.Builder, e *yang.Entry, ind string, pos bool) {
 	if pos {
 		src = " src=" + yang.Source(e.Node)
 	}
-	fmt.Fprintf(b, "%s%s kind=%v key=%q cfg=%v ro=%v mand=%v def=%q defvals=%q units=%q ns=%q im=%s%s pfx=%s desc=%q%s exts=%d augmented=%d augments=%d%s\n", ind, e.Name, e.Kind, e.Key, e.Config, e.ReadOnly(), e.Mandatory, e.Default, e.DefaultValues(), e.Units, e.Namespace().Name, im, ime, pfx, e.Description, la, len(e.Exts), len(e.Augmented), len(e.Augments), src)
+	fmt.Fprintf(b, "%s%s kind=%v key=%q cfg=%v ro=%v mand=%v def=%q defvals=%q units=%q ns=%q im=%s%s pfx=%s desc=%q%s exts=%s augmented=%d augments=%d%s\n", ind, e.Name, e.Kind, e.Key, e.Config, e.ReadOnly(), e.Mandatory, e.Default, e.DefaultValues(), e.Units, e.Namespace().Name, im, ime, pfx, e.Description, la, extArgs(e), len(e.Augmented), len(e.Augments), src)
 	// the extra keywords kept on the entry (if-feature, must, when, status, reference, ...)
 	var xs []string
 	for k := range e.Extra {
